@@ -148,15 +148,19 @@ class C11(scen.WorldProp):
         N = rng.choice([4, 6, 8, 12])
         origin = rng.choice([1000.0, 1.0e6, 946684800.0, 1.7e9, 1.8e9])
         t_lt = origin - rng.uniform(0.0, 2.0)
-        I = scen.interval(180, N)
+        # (the band's speed arrives with the answers to the join, before the touch is laid out: it is the speed of
+        # the whole touch, first blow 3 s after Look To as ever)
+        ps = rng.choice([180, 180, 120, 150, 210, 240])
+        speed = [] if ps == 180 else [{"m": "setting", "kvs": [["peal_speed", rng.choice([ps, str(ps)])]]}]
+        I = scen.interval(ps, N)
         rows = rng.randint(4, 12)
         sc = {"start": origin, "end": t_lt + 3 + I * scen.blow_index(N, 1.0, rows, 0) + 0.5 * I, "tower_size": N,
-              "events": [], "on_join": scen.humans_on_join([], "Wheatley", list(range(1, 17))) + [method_msg(N)],
+              "events": [], "on_join": scen.humans_on_join([], "Wheatley", list(range(1, 17))) + [method_msg(N)] + speed,
               "look_to_time": scen.f2b(t_lt),
               "bot": scen.bot_cfg({"type": "placeholder"}, up_down_in=True, stop_at_rounds=False, user_name="Wheatley",
                                   server_id=rng.randint(1, 9)),
               "rhythm": scen.rhythm_cfg("wait", inertia=1.0, peal_speed=180, gap=1.0)}
-        return {"k": "world", "scenario": sc, "t0": t_lt, "speed_text": None, "spawned": True}
+        return {"k": "world", "scenario": sc, "t0": t_lt, "speed_text": None, "spawned": True, "speed_now": ps}
 
     def to_model(self, req):
         if req.get("spawned"):
@@ -207,7 +211,7 @@ class C11(scen.WorldProp):
         if reply["crashed"] or reply["handler_crashes"]:
             return f"crash: main={reply['crashed']} handlers={reply['handler_crashes']}"
         N = sc["tower_size"]
-        ps = sc["rhythm"]["peal_speed"]
+        ps = req.get("speed_now") or sc["rhythm"]["peal_speed"]
         g = scen.b2f(sc["rhythm"]["gap"])
         I = scen.interval(ps, N)
         T = req["t0"]
